@@ -502,7 +502,49 @@ def histories(tier, seed):
     return H
 
 
+def _digest():
+    """content digest of everything the histories depend on: the implementation, the harness, the models"""
+    import glob
+    h = hashlib.sha1()
+    files = sorted(glob.glob(os.path.join(common.REPO, 'nautilus', '**', '*.py'), recursive=True)) + \
+        sorted(glob.glob(os.path.join(common.VERIF, 'harness', '*.py'))) + \
+        sorted(glob.glob(os.path.join(common.LEAN, 'NautilusVerif', 'Model', '*.lean'))) + \
+        sorted(glob.glob(os.path.join(common.LEAN, 'NautilusVerif', 'Driver', '*.lean')))
+    for f in files:
+        h.update(f.encode())
+        h.update(open(f, 'rb').read())
+    return h.hexdigest()
+
+
 def run_all(tier, seed):
+    """the five Core properties evaluate the same histories; the results of a run are shared between their checks as long as
+    the implementation, the harness and the models are byte-identical (content digest) — otherwise everything is re-run"""
+    import fcntl
+    import pickle
+    cdir = os.path.join(common.VERIF, '.cache')
+    os.makedirs(cdir, exist_ok=True)
+    path = os.path.join(cdir, 'core_%s_%s_%d.pkl' % (_digest()[:20], tier, seed))
+    with open(os.path.join(cdir, 'lock'), 'w') as lk:
+        fcntl.flock(lk, fcntl.LOCK_EX)
+        if os.path.exists(path) and not os.environ.get('NAUTILUS_VERIF_NOCACHE'):
+            try:
+                with open(path, 'rb') as f:
+                    res = pickle.load(f)
+                for r in res:
+                    r['from_cache'] = True
+                return res
+            except Exception:
+                pass
+        res = _run_all(tier, seed)
+        for old in sorted((f for f in os.listdir(cdir) if f.endswith('.pkl')), key=lambda f: os.path.getmtime(os.path.join(cdir, f)))[:-3]:
+            os.remove(os.path.join(cdir, old))
+        with open(path + '.tmp', 'wb') as f:
+            pickle.dump(res, f)
+        os.replace(path + '.tmp', path)
+        return res
+
+
+def _run_all(tier, seed):
     H = histories(tier, seed)
     limit = 420 if tier == 'quick' else 1500       # seconds per history; a run that does not return is a finding
     pool = mp.get_context('fork').Pool(min(16, os.cpu_count() or 4))
@@ -525,6 +567,10 @@ def run_all(tier, seed):
     for r in res:
         r.setdefault('dis', [])
         r.setdefault('inv', [])
+        r['n_ops'] = len(r.get('ops', []))
+        for k in ('req', 'states', 'outs'):       # large; not needed once compared
+            r.pop(k, None)
+        r['ops'] = r.get('ops', [])[:5]
     return res
 
 
@@ -564,7 +610,7 @@ def report(chk, pid, results, inv_names):
             else:
                 chk.notes.append('history skipped (the sampler raised; reported by %s): %s' % ('/'.join(crash_properties(r.get('trace', ''))), r['crash'][:100]))
             continue
-        total_ops += len(r['ops'])
+        total_ops += r.get('n_ops', len(r.get('ops', [])))
         nontriv += r['stats']['boundaries_with_transfers']
         for key, what, d in r['fails'][pid]:
             chk.fail(key, what, {'input': spec, 'detail': d})
@@ -575,11 +621,12 @@ def report(chk, pid, results, inv_names):
             chk.correspondence_broken('Sampler history vs Core model (%s seed %s)' % (r['spec']['make'].get('kind'), r['spec']['make'].get('seed')),
                                       {'disagreements': r['dis'][:2], 'false_invariants_on_real_state': bad_inv[:3], 'spec': spec},
                                       accounted=acc)
-        chk.sample({'make': r['spec']['make'], 'script': r['spec']['script'], 'ops': len(r['ops']), 'stats': r['stats']}, cap=3)
+        chk.sample({'make': r['spec']['make'], 'script': r['spec']['script'], 'ops': r.get('n_ops'), 'first_ops': r.get('ops'), 'stats': r['stats']}, cap=3)
     chk.count(total_ops, nontriv)
     chk.cov['traces_validated_against_impl'] = len([r for r in results if 'crash' not in r])
     chk.cov['disagreements_checked'] = n_dis
     chk.extra['histories'] = len(results)
+    chk.extra['histories_shared_with_other_core_check'] = bool(results and results[0].get('from_cache'))
     chk.extra['history_stats'] = [dict(kind=r['spec']['make'].get('kind'), **r.get('stats', {})) for r in results if 'crash' not in r][:40]
     chk.cov['rule'] = ('real Sampler histories (likelihoods: gaussian, bimodal, funnel, half-space -inf plateau, stepped plateau, periodic '
                        'wrap-around; n_batch 1..100, networks 0/1, blobs of 4 kinds, run() sliced by n_like_max, discard toggles) replayed '
